@@ -1,5 +1,6 @@
 import NixModel.Lemmas.StoreViews
-import NixModel.Lemmas.StoreWFC03
+import NixModel.Lemmas.C03Accept
+import NixModel.Lemmas.C03Uuid
 
 /-!
 # C03 — names unique per parent, ids unique, all lookups agree
@@ -57,18 +58,20 @@ theorem duplicate_refused_block (g : Graph) (name type : String) (hn : name ≠ 
 
 /-! ## Full-strength statements over reachable graphs
 
-`ReachableFresh g` = `g` is the state after some history of API calls from the empty file in which
-no call names its new entity with an id the (abstract, `uuid4`) supply has not handed out yet.
+`ReachableFreshX g` = `g` is the state after some history of API calls (the operations of
+`Store/Step.lean` and `create_data_frame`: `Store/Frames.lean`) from the empty file in which no call
+names its new entity with an id the (abstract, `uuid4`) supply has not handed out yet; the histories
+without data frames (`ReachableFresh`) are among them (`Lemmas.ReachableFresh.toX`).
 Every such graph satisfies the invariant `WF` (`Lemmas/StoreWF.lean`): unique keys, link targets
 exist, link names unique per group, ids `id:n` with `n < nextId` and pairwise distinct, and
 container typing (entries of an owning container carry their link name as `name`, entries of link
 lists their link name as `entity_id`). -/
 
 /-- the invariant holds along every history -/
-theorem reachable_wf {g : Graph} (hg : ReachableFresh g) : WF g := hg.wf
+theorem reachable_wf {g : Graph} (hg : ReachableFreshX g) : WF g := hg.wf
 
 /-- and every API call keeps it (one lemma per `Op` constructor inside) -/
-theorem step_wf {g : Graph} (h : WF g) (op : Op) (hf : Op.Fresh g op) : WF (step g op) := h.step hf
+theorem step_wf {g : Graph} (h : WF g) (op : OpX) (hf : OpX.Fresh g op) : WF (stepX g op) := h.stepX hf
 
 /-- **views agree** — for every owning container (blocks, groups, arrays, frames, tags,
 multi-tags, sources and sections at any depth, properties) of every reachable graph and every
@@ -77,7 +80,7 @@ membership by name and membership by entity all address the `j`-th entry of the 
 link list. The hypotheses of `lookup_by_name` / `lookup_by_id` (names unique, the id is the
 first with that id, ids are UUIDs) are discharged by `WF`; what remains is the documented clash:
 the entry's *name* is the *id* of a sibling. -/
-theorem views_agree_reachable {g : Graph} (hg : ReachableFresh g) {p : Path} {cn : String} {c : Cont}
+theorem views_agree_reachable {g : Graph} (hg : ReachableFreshX g) {p : Path} {cn : String} {c : Cont}
     (hc : openCont g p cn = some c) (hpl : isPlainLike c.info.flavour = true)
     (j : Nat) (hj : j < contLen g c) :
     contGet g c (.pos j) = .ok ((contEntries g c)[j]'hj) ∧
@@ -92,11 +95,11 @@ theorem views_agree_reachable {g : Graph} (hg : ReachableFresh g) {p : Path} {cn
   hg.wf.views_agree hc hpl j hj
 
 /-- names are unique within every container of a reachable graph -/
-theorem names_unique_reachable {g : Graph} (hg : ReachableFresh g) (c : Cont) :
+theorem names_unique_reachable {g : Graph} (hg : ReachableFreshX g) (c : Cont) :
     ((contEntries g c).map (·.1)).Nodup := hg.wf.entries_nodup c
 
 /-- ids are pairwise distinct file-wide, and each is an id the supply handed out -/
-theorem ids_unique_reachable {g : Graph} (hg : ReachableFresh g) :
+theorem ids_unique_reachable {g : Graph} (hg : ReachableFreshX g) :
     (∀ k k' i, g.entityId k = some i → g.entityId k' = some i → k = k') ∧
     (∀ k i, g.entityId k = some i → ∃ n, n < g.nextId ∧ i = idStr n ∧ isUuid i = true) :=
   ⟨hg.wf.ids_distinct, fun k i h => by
@@ -104,28 +107,19 @@ theorem ids_unique_reachable {g : Graph} (hg : ReachableFresh g) :
     exact ⟨n, hn, e, e ▸ isUuid_idStr n⟩⟩
 
 /-- **fresh ids** — the id the next create call will draw differs from every id in the file -/
-theorem id_fresh {g : Graph} (hg : ReachableFresh g) (k : Nat) : g.entityId k ≠ some (g.freshId).2 := by
+theorem id_fresh {g : Graph} (hg : ReachableFreshX g) (k : Nat) : g.entityId k ≠ some (g.freshId).2 := by
   intro e
   obtain ⟨n, hn, e'⟩ := hg.wf.ids_wf k _ e
   have := idStr_inj e'
   omega
 
-/-- the full statement of id stability: no API call changes the `entity_id` of an existing node -/
+/-- the statement of id stability over the histories of `Store/Step.lean` -/
 def IdStable : Prop :=
   ∀ (g : Graph), ReachableFresh g → ∀ (op : Op), Op.Fresh g op → ∀ k ∈ keys g, (step g op).entityId k = g.entityId k
 
-/-- whether the op is one of those for which `id_stable_partial` is proved; what is missing for
-the remaining constructors (`createIn`, `createProperty`, `createFeature`, `setRole`) is the
-attribute-frame lemma of the function (their `WF` lemmas show that `entity_id` is only ever
-written on the node just made, but do not export it) -/
-def Op.idStableProved : Op → Bool
-  | .createBlock .. | .createSection .. | .del .. | .append .. | .setAttr .. | .reopen => true
-  | _ => false
-
-/-- **ids never change** (partial: create_block, create_section at any depth, every deletion and
-unlinking, every link-list append, every attribute setter, reopen) -/
-theorem id_stable_partial {g : Graph} (hg : ReachableFresh g) (op : Op) (hf : Op.Fresh g op)
-    (hop : Op.idStableProved op = true) (k : Nat) (hk : k ∈ keys g) :
+/-- **ids never change**, for every operation: no API call (create in any container, delete,
+unlink, append, role-link and attribute setters, reopen) changes the `entity_id` of an existing node -/
+theorem id_stable_wf {g : Graph} (hw : WF g) (op : Op) (hf : Op.Fresh g op) (k : Nat) (hk : k ∈ keys g) :
     (step g op).entityId k = g.entityId k := by
   unfold step
   split
@@ -133,10 +127,10 @@ theorem id_stable_partial {g : Graph} (hg : ReachableFresh g) (op : Op) (hf : Op
     cases op with
     | createBlock n t =>
       simp only [apply, Option.some.injEq] at ha
-      exact hg.wf.createBlock_entityId (hf n rfl) ha k hk
+      exact hw.createBlock_entityId (hf n rfl) ha k hk
     | createSection o n t =>
       simp only [apply, Option.some.injEq] at ha
-      exact hg.wf.createSection_entityId (hf n rfl) ha k hk
+      exact hw.createSection_entityId (hf n rfl) ha k hk
     | del o c key =>
       simp only [apply] at ha
       split at ha
@@ -155,16 +149,61 @@ theorem id_stable_partial {g : Graph} (hg : ReachableFresh g) (op : Op) (hf : Op
     | reopen =>
       simp only [apply, Option.some.injEq, Except.ok.injEq] at ha
       rw [← ha]
-    | createIn o w n t e => cases hop
-    | createProperty o n => cases hop
-    | createFeature o d l => cases hop
-    | setRole o r t => cases hop
+    | createIn o w n t e =>
+      cases e with
+      | none =>
+        simp only [apply, Option.some.injEq] at ha
+        obtain ⟨_, _, _, _, _, _, hc⟩ := hw.createIn_created (hf n rfl) ha
+        exact hc.entityId_old k hk
+      | some ep =>
+        simp only [apply, Option.map_eq_some_iff] at ha
+        obtain ⟨l, _, ha⟩ := ha
+        obtain ⟨_, _, _, _, _, _, hc⟩ := hw.createIn_created (hf n rfl) ha
+        exact hc.entityId_old k hk
+    | createProperty o n =>
+      simp only [apply, Option.some.injEq] at ha
+      exact hw.createProperty_entityId ha k hk
+    | createFeature o d l =>
+      cases d with
+      | none =>
+        simp only [apply, Option.some.injEq] at ha
+        exact hw.createFeature_entityId ha k hk
+      | some dp =>
+        simp only [apply, Option.map_eq_some_iff] at ha
+        obtain ⟨l', _, ha⟩ := ha
+        exact hw.createFeature_entityId ha k hk
+    | setRole o r t =>
+      cases t with
+      | none =>
+        simp only [apply, Option.some.injEq] at ha
+        exact setRole_entityId ha k
+      | some tp =>
+        simp only [apply, Option.map_eq_some_iff] at ha
+        obtain ⟨l', _, ha⟩ := ha
+        exact setRole_entityId ha k
   · rfl
+
+/-- `IdStable` holds (the former `id_stable_partial`, now for every constructor of `Op`) -/
+theorem id_stable : IdStable := fun _ hg op hf k hk => id_stable_wf hg.wf op hf k hk
+
+/-- … and along the extended histories (data frames included) -/
+theorem id_stable_x {g : Graph} (hg : ReachableFreshX g) (op : OpX) (hf : OpX.Fresh g op) (k : Nat)
+    (hk : k ∈ keys g) : (stepX g op).entityId k = g.entityId k := by
+  cases op with
+  | base op => exact id_stable_wf hg.wf op hf k hk
+  | createFrame o n t =>
+    unfold stepX
+    split
+    · rename_i g' ha
+      simp only [applyX, Option.some.injEq] at ha
+      obtain ⟨_, _, _, _, hc⟩ := hg.wf.createFrame_created (hf n rfl) ha
+      exact hc.entityId_old k hk
+    · rfl
 
 /-- **order after delete** — `del c[key]` on a plain container (blocks, groups, arrays, frames,
 tags, multi-tags, properties; key = name, id or position) succeeds whenever `c[key]` does, and
 removes exactly the addressed entry: the others keep their relative order -/
-theorem order_after_delete {g : Graph} (hg : ReachableFresh g) {p : Path} {cn : String} {c : Cont}
+theorem order_after_delete {g : Graph} (hg : ReachableFreshX g) {p : Path} {cn : String} {c : Cont}
     (hc : openCont g p cn = some c) (hfl : c.info.flavour = .plain) {key : Key} {e : String × Nat}
     (hget : contGet g c key = .ok e) :
     ∃ g', contDel g c key = .ok g' ∧ cLinks g' c.node = (contEntries g c).filter (fun l => l != e) :=
@@ -173,7 +212,7 @@ theorem order_after_delete {g : Graph} (hg : ReachableFresh g) {p : Path} {cn : 
 /-- **link lists: append** — a successful `append` leaves the list as the old entries without
 the appended entity, followed by it (so a first append puts it last and a re-append moves it to
 the end); entries of link lists are named by the id of their target -/
-theorem link_append_last {g g' : Graph} (hg : ReachableFresh g) {p : Path} {cn : String} {c : Cont} {key : Key}
+theorem link_append_last {g g' : Graph} (hg : ReachableFreshX g) {p : Path} {cn : String} {c : Cont} {key : Key}
     (hc : openCont g p cn = some c) (hres : contAppend g c key = .ok g') :
     ∃ k id cg, g.entityId k = some id ∧ g'.child? c.owner.key cn = some cg ∧
       g'.links cg = (contEntries g c).filter (fun l => l.1 != id) ++ [(id, k)] :=
@@ -181,7 +220,7 @@ theorem link_append_last {g g' : Graph} (hg : ReachableFresh g) {p : Path} {cn :
 
 /-- **link lists: unlink** — `del list[key]` (key = name, id, position or the entity) removes the
 one entry named by the entity's id; the rest keep their order -/
-theorem link_unlink_keeps_rest {g g' : Graph} (hg : ReachableFresh g) {p : Path} {cn : String} {c : Cont}
+theorem link_unlink_keeps_rest {g g' : Graph} (hg : ReachableFreshX g) {p : Path} {cn : String} {c : Cont}
     {key : Key} (hc : openCont g p cn = some c)
     (hfl : c.info.flavour = .link ∨ c.info.flavour = .sourceLink) (hres : contDel g c key = .ok g') :
     ∃ id cg, c.node = some cg ∧ g'.links cg = (contEntries g c).filter (fun l => l.1 != id) :=
@@ -194,7 +233,7 @@ list followed by the new block, whose id is the freshly drawn one and differs fr
 the file; lookup and membership by that id and membership by entity address exactly the new
 block; and — unless the name is the id of a sibling, the documented clash — so do lookup and
 membership by name, and deleting by name restores the old list. -/
-theorem legal_name_accepted_block {g : Graph} (hg : ReachableFresh g) {name type : String} {c : Cont}
+theorem legal_name_accepted_block {g : Graph} (hg : ReachableFreshX g) {name type : String} {c : Cont}
     (hc : openCont g [] "data" = some c)
     (hn : name ≠ "") (hs : hasSlash name = false) (ht : type ≠ "")
     (hfresh : ∀ m, g.nextId ≤ m → name ≠ idStr m)
@@ -210,24 +249,160 @@ theorem legal_name_accepted_block {g : Graph} (hg : ReachableFresh g) {name type
          ∃ g'', contDel g' c' (.str name) = .ok g'' ∧ cLinks g'' c'.node = contEntries g c) :=
   hg.wf.legal_name_accepted_block hc hn hs ht hfresh hnew
 
-/-- the full statement of `legal_name_accepted` for the other create functions (groups, arrays,
-tags, multi-tags, sources, sections, properties): proved so far are acceptance-preserves-`WF`
-(`step_wf`), the shape of the new container (`Lemmas.NewEnt.cont`: old entries ++ [new]) inside
-`WF.createIn` / `WF.createSection_new`, and — for every container of the resulting reachable
-graph — `views_agree_reachable` and `order_after_delete`; what is missing is the packaging of
-these into one statement per function as done for blocks above. -/
-def LegalNameAcceptedEverywhere : Prop :=
-  ∀ (g : Graph), ReachableFresh g → ∀ (p : Path) (what name type cname kind : String) (o : Loc) (c : Cont),
-    resolve g rootLoc p = some o → createSpec (kindOf g o.key) what = some (cname, kind) → kind ≠ "multi_tag" →
-    openCont g p cname = some c → checkNameType name type = .ok () →
-    (∀ m, g.nextId ≤ m → name ≠ idStr m) → (∀ l ∈ contEntries g c, l.1 ≠ name) →
-    ∃ g' k, createIn g p what name type none = .ok g' ∧
-      cLinks g' (g'.child? o.key cname) = contEntries g c ++ [(name, k)]
+/-! ### a legal name is accepted by every create function
 
-/-- the partial result available for every create function: the call keeps the invariant, so all
-view theorems apply to the state after it -/
-theorem legal_name_accepted_partial {g : Graph} (hg : ReachableFresh g) (op : Op) (hf : Op.Fresh g op) :
-    ReachableFresh (step g op) ∧ WF (step g op) := ⟨hg.step hf, (hg.step hf).wf⟩
+`AcceptedAs g ok cn name c g'` packages what "accepted and afterwards usable" means for the
+container `c` (= container `cn` of the owner node `ok`, opened in `g`): see `Lemmas.Created.accepted`.
+Only the entries of `c` itself enter the hypotheses — a name taken by an entity of another kind of
+the same parent does not matter (`other_kinds_untouched`). -/
+
+/-- the conclusion shared by the acceptance theorems -/
+def AcceptedAs (g : Graph) (ok : Nat) (cn name : String) (c : Cont) (g' : Graph) : Prop :=
+  ∃ k cg, WF g' ∧ g'.child? ok cn = some cg ∧
+    contEntries g' { c with node := some cg } = contEntries g c ++ [(name, k)] ∧
+    g'.entityId k = some (g.freshId).2 ∧ (∀ k', g.entityId k' ≠ some (g.freshId).2) ∧
+    (∀ x ∈ keys g, g'.entityId x = g.entityId x) ∧
+    contGet g' { c with node := some cg } (.str (g.freshId).2) = .ok (name, k) ∧
+    contHas g' { c with node := some cg } (.str (g.freshId).2) = .ok true ∧
+    contHas g' { c with node := some cg } (.ent k) = .ok true ∧
+    ((isUuid name = true → ∀ l ∈ contEntries g c, g.entityId l.2 ≠ some name) →
+       contGet g' { c with node := some cg } (.str name) = .ok (name, k) ∧
+       contHas g' { c with node := some cg } (.str name) = .ok true ∧
+       (c.info.flavour = .plain →
+         ∃ g'', contDel g' { c with node := some cg } (.str name) = .ok g'' ∧ cLinks g'' (some cg) = contEntries g c))
+
+theorem acceptedAs_of_created {g g' : Graph} (h : WF g) {p : Path} {cn name : String} {c : Cont} {k : Nat}
+    (hc : openCont g p cn = some c) (hpl : isPlainLike c.info.flavour = true)
+    (hcr : Created g c.owner.key cn name g' k)
+    (hfresh : ∀ m, g.nextId ≤ m → name ≠ idStr m) (hnew : ∀ l ∈ contEntries g c, l.1 ≠ name) :
+    AcceptedAs g c.owner.key cn name c g' := by
+  obtain ⟨o, hr, hci, ho, _, _, hnode⟩ := openCont_some hc
+  subst ho
+  obtain ⟨cg, h1, h2⟩ := hcr.accepted h hci hnode hpl (h.resolve_root_key hr) hfresh hnew
+  exact ⟨k, cg, hcr.wf, h1, h2⟩
+
+/-- **every create function of a block and of a source** (`create_group`, `create_data_array`,
+`create_tag`, `create_multi_tag` with a positions array, `create_source` on blocks and on sources at
+any depth): an accepted call appends the entity under its name, with a fresh id, addressable by
+position, name, id and entity, and changes no other id -/
+theorem legal_name_accepted_in {g g' : Graph} (hg : ReachableFreshX g) {p : Path} {what name type : String}
+    {extra : Option Nat} (hfresh : ∀ m, g.nextId ≤ m → name ≠ idStr m)
+    (hres : createIn g p what name type extra = .ok g') :
+    ∃ o cname kind c, resolve g rootLoc p = some o ∧ createSpec (kindOf g o.key) what = some (cname, kind) ∧
+      openCont g p cname = some c ∧ c.owner = o ∧ (∀ l ∈ contEntries g c, l.1 ≠ name) ∧
+      AcceptedAs g o.key cname name c g' := by
+  obtain ⟨o, k, cname, kind, hr, hsp, hcr⟩ := hg.wf.createIn_created hfresh hres
+  obtain ⟨info, hci, hpl, _⟩ := createSpec_info hsp
+  have hok : ownerKindOf g o = kindOf g o.key := by
+    rw [ownerKindOf_eq, hg.wf.okind_of_kind]
+    intro e; rw [e] at hci; simp [containerInfo_empty] at hci
+  obtain ⟨c, hc⟩ : ∃ c, openCont g p cname = some c := by
+    simp [openCont, hr, hok, hci]
+  obtain ⟨o', hr', hci', ho, _, _, hnode⟩ := openCont_some hc
+  have hoo : o' = o := by rw [hr] at hr'; exact (Option.some.inj hr').symm
+  subst hoo
+  have hinfo : c.info = info := by
+    rw [hg.wf.okind_of_kind (by intro e; rw [e] at hci; simp [containerInfo_empty] at hci), hci] at hci'
+    exact (Option.some.inj hci').symm
+  have hnew : ∀ l ∈ contEntries g c, l.1 ≠ name := by
+    intro l hl e
+    obtain ⟨cg, _, _, hlinks⟩ := hcr.cont
+    have hnd := hcr.wf.names_nodup cg
+    have hl' : l ∈ cLinks g (g.child? o'.key cname) := by
+      unfold contEntries at hl; rw [hnode] at hl; exact hl
+    rw [hlinks, List.map_append, List.nodup_append] at hnd
+    exact hnd.2.2 l.1 (List.mem_map.mpr ⟨l, hl', rfl⟩) name (by simp) e
+  refine ⟨o', cname, kind, c, hr, hsp, hc, ho, hnew, ?_⟩
+  have := acceptedAs_of_created hg.wf hc (by rw [hinfo]; exact hpl) (by rw [ho]; exact hcr) hfresh hnew
+  rw [ho] at this
+  exact this
+
+/-- **data frames** (`Block.create_data_frame`): an accepted call appends the frame under its
+name — whatever arrays, tags, groups … of the block are called (only the entries of `data_frames`
+enter, see `duplicate_refused_frame` for the converse) — and afterwards the name, the id, the
+position and the entity address exactly the new frame -/
+theorem legal_name_accepted_frame {g g' : Graph} (hg : ReachableFreshX g) {p : Path} {name type : String} {c : Cont}
+    (hc : openCont g p "data_frames" = some c) (hfresh : ∀ m, g.nextId ≤ m → name ≠ idStr m)
+    (hnew : ∀ l ∈ contEntries g c, l.1 ≠ name) (hres : createFrame g p name type = .ok g') :
+    AcceptedAs g c.owner.key "data_frames" name c g' := by
+  obtain ⟨o, k, hr, hk, hcr⟩ := hg.wf.createFrame_created hfresh hres
+  obtain ⟨o', hr', hci, ho, _, _, _⟩ := openCont_some hc
+  have hoo : o' = o := by rw [hr] at hr'; exact (Option.some.inj hr').symm
+  subst hoo
+  have hpl : isPlainLike c.info.flavour = true := by
+    have : containerInfo (okind g o'.key) "data_frames" = some { flavour := .plain, item := "data_frame" } := by
+      rw [hg.wf.okind_of_kind (by rw [hk]; decide), hk]; rfl
+    rw [this] at hci
+    rw [← Option.some.inj hci]; rfl
+  exact acceptedAs_of_created hg.wf hc hpl (by rw [ho]; exact hcr) hfresh hnew
+
+/-- a second data frame under an existing name is refused with DuplicateName — the test looks into
+`data_frames` (not into `data_arrays` or any other container of the block) -/
+theorem duplicate_refused_frame (g : Graph) (p : Path) (o : Loc) (name type : String) (cf : Nat)
+    (hr : resolve g rootLoc p = some o) (hk : kindOf g o.key = "block") (hlegal : checkNameType name type = .ok ())
+    (hc : g.child? o.key "data_frames" = some cf) (hin : g.hasChild cf name = true) :
+    createFrame g p name type = .error .duplicateName := by
+  unfold createFrame
+  simp [hr, hk, hlegal, hc, hin]
+
+/-- **sections at any depth** (`File.create_section`, `Section.create_section`) -/
+theorem legal_name_accepted_section {g g' : Graph} (hg : ReachableFreshX g) {p : Path} {name type : String}
+    {c : Cont} (hn : name ≠ "") (hfresh : ∀ m, g.nextId ≤ m → name ≠ idStr m)
+    (hc : openCont g p (if p = [] then "metadata" else "sections") = some c)
+    (hnew : ∀ l ∈ contEntries g c, l.1 ≠ name)
+    (hres : createSection g p name type = .ok g') :
+    AcceptedAs g c.owner.key (if p = [] then "metadata" else "sections") name c g' := by
+  obtain ⟨o, k, hr, hcr⟩ := hg.wf.createSection_created hfresh hn hres
+  obtain ⟨o', hr', hci, ho, _, _, _⟩ := openCont_some hc
+  have hoo : o' = o := by rw [hr] at hr'; exact (Option.some.inj hr').symm
+  subst hoo
+  have hpl : isPlainLike c.info.flavour = true := by
+    by_cases hp : p = []
+    · subst hp
+      simp only [↓reduceIte] at hci
+      have e : o' = rootLoc := by simpa [resolve] using hr.symm
+      rw [e] at hci
+      have : containerInfo (okind g rootLoc.key) "metadata" = some { flavour := .sections, item := "section" } := rfl
+      rw [this] at hci; rw [← Option.some.inj hci]; rfl
+    · simp only [hp, ↓reduceIte] at hci
+      have hk : kindOf g o'.key = "section" := by
+        cases p with
+        | nil => exact absurd rfl hp
+        | cons sg ps =>
+          unfold createSection at hres
+          simp only [hr] at hres
+          by_cases hk : kindOf g o'.key = "section"
+          · exact hk
+          · have hk' : (kindOf g o'.key != "section") = true := by simpa using hk
+            simp [hk'] at hres
+      have : containerInfo (okind g o'.key) "sections" = some { flavour := .sections, item := "section" } := by
+        rw [hg.wf.okind_of_kind (by rw [hk]; decide), hk]; rfl
+      rw [this] at hci; rw [← Option.some.inj hci]; rfl
+  exact acceptedAs_of_created hg.wf hc hpl (by rw [ho]; exact hcr) hfresh hnew
+
+/-- **the kinds of one parent do not see each other** — a successful create call in one container
+(`create_data_frame`, any `create_*` of a block or source, `create_section`) leaves every other
+container of the same parent as it was -/
+theorem other_kinds_untouched_frame {g g' : Graph} (hg : ReachableFreshX g) {p : Path} {name type m : String}
+    {info : CInfo} (hfresh : ∀ m, g.nextId ≤ m → name ≠ idStr m) (hres : createFrame g p name type = .ok g')
+    (hm : m ≠ "data_frames") (hci : containerInfo "block" m = some info) :
+    ∃ o, resolve g rootLoc p = some o ∧ cLinks g' (g'.child? o.key m) = cLinks g (g.child? o.key m) := by
+  obtain ⟨o, k, hr, hk, hcr⟩ := hg.wf.createFrame_created hfresh hres
+  refine ⟨o, hr, hcr.other_kinds_untouched (info := info) hg.wf hm ?_⟩
+  rw [hg.wf.okind_of_kind (by rw [hk]; decide), hk]; exact hci
+
+theorem other_kinds_untouched_in {g g' : Graph} (hg : ReachableFreshX g) {p : Path} {what name type m : String}
+    {extra : Option Nat} {info : CInfo} (hfresh : ∀ m, g.nextId ≤ m → name ≠ idStr m)
+    (hres : createIn g p what name type extra = .ok g') :
+    ∃ o cname kind, resolve g rootLoc p = some o ∧ createSpec (kindOf g o.key) what = some (cname, kind) ∧
+      (m ≠ cname → containerInfo (okind g o.key) m = some info →
+        cLinks g' (g'.child? o.key m) = cLinks g (g.child? o.key m)) := by
+  obtain ⟨o, k, cname, kind, hr, hsp, hcr⟩ := hg.wf.createIn_created hfresh hres
+  exact ⟨o, cname, kind, hr, hsp, fun hm hci => hcr.other_kinds_untouched hg.wf hm hci⟩
+
+/-- every create call keeps the invariant, so all view theorems apply to the state after it -/
+theorem legal_name_accepted_partial {g : Graph} (hg : ReachableFreshX g) (op : OpX) (hf : OpX.Fresh g op) :
+    ReachableFreshX (stepX g op) ∧ WF (stepX g op) := ⟨hg.step hf, (hg.step hf).wf⟩
 
 /-! ### duplicate names are refused by every create function -/
 
@@ -303,10 +478,33 @@ example : (match createBlock demo "b" "t" with | .error .duplicateName => true |
 
 /-- the demo state is reachable by a history that respects id freshness, so every theorem above
 applies to it (the hypotheses are satisfiable) -/
-theorem demo_reachable : ReachableFresh demo :=
-  ⟨[.createBlock "b" "t", .createBlock "0f0f0f0f0f0f0f0f0f0f0f0f0f0f0f0f" "t"],
+theorem demo_reachable : ReachableFreshX demo :=
+  ReachableFresh.toX ⟨[.createBlock "b" "t", .createBlock "0f0f0f0f0f0f0f0f0f0f0f0f0f0f0f0f" "t"],
     ⟨fun n hn m _ => by cases hn; exact notId_of_head (by decide) m,
      fun n hn m _ => by cases hn; exact notId_of_head (by decide) m, trivial⟩, rfl⟩
+
+/-- names are unique per kind: a block with a data frame `x`, a data array `x` and a tag `x` -/
+def demoX : Graph := runX init [.base (.createBlock "b" "t"), .createFrame [.name "data", .name "b"] "x" "t",
+  .base (.createIn [.name "data", .name "b"] "data_array" "x" "t" none),
+  .base (.createIn [.name "data", .name "b"] "tag" "x" "t" none)]
+
+theorem demoX_reachable : ReachableFreshX demoX :=
+  ⟨[.base (.createBlock "b" "t"), .createFrame [.name "data", .name "b"] "x" "t",
+    .base (.createIn [.name "data", .name "b"] "data_array" "x" "t" none),
+    .base (.createIn [.name "data", .name "b"] "tag" "x" "t" none)],
+   ⟨fun n hn m _ => by cases hn; exact notId_of_head (by decide) m,
+       fun n hn m _ => by cases hn; exact notId_of_head (by decide) m,
+       fun n hn m _ => by cases hn; exact notId_of_head (by decide) m,
+       fun n hn m _ => by cases hn; exact notId_of_head (by decide) m, trivial⟩, rfl⟩
+
+example : ((openCont demoX [.name "data", .name "b"] "data_frames").map fun c => (contEntries demoX c).map (·.1),
+           (openCont demoX [.name "data", .name "b"] "data_arrays").map fun c => (contEntries demoX c).map (·.1),
+           (openCont demoX [.name "data", .name "b"] "tags").map fun c => (contEntries demoX c).map (·.1)) =
+    (some ["x"], some ["x"], some ["x"]) := by decide +kernel
+example : (match createFrame demoX [.name "data", .name "b"] "x" "t" with | .error .duplicateName => true | _ => false)
+    = true := by decide +kernel
+example : (match createFrame demoX [.name "data", .name "b"] "y" "t" with | .ok _ => true | _ => false) = true := by
+  decide +kernel
 
 example : WF demo := reachable_wf demo_reachable
 example : ∃ c, openCont demo [] "data" = some c ∧ hasSlash "new" = false ∧
